@@ -209,18 +209,22 @@ def cliTask (c : Coll) (n : List CName) : Option (Except LErr (Nat × KVs)) :=
 
 /-! ### listings -/
 
-/-- a flat-format line: full dotted name and the names in the parenthesis -/
-def flatTask (anc : List CName) (als : List (CName × CName)) (dflt : Option CName) (t : CName × Nat) : Entry :=
-  (anc ++ [t.1],
-   (if dflt = some t.1 && !anc.isEmpty then [anc] else []) ++ (aliasesOf als t.1).map (fun a => anc ++ [a]))
+/-- a flat-format line: full dotted name and the names in the parenthesis.  `rad` is the
+    `auto_dash_names` of the program's ROOT collection: every displayed name, alias and ancestor path
+    component is (re-)normalised by `self.collection.transform`, i.e. shown as the CLI accepts it;
+    `anc` holds the raw binding names of the ancestors -/
+def flatTask (rad : Bool) (anc : List CName) (als : List (CName × CName)) (dflt : Option CName) (t : CName × Nat) : Entry :=
+  ((anc ++ [t.1]).map (transform rad),
+   (if dflt = some t.1 && !anc.isEmpty then [anc.map (transform rad)] else []) ++
+     (aliasesOf als t.1).map (fun a => (anc ++ [a]).map (transform rad)))
 
 mutual
 /-- `Program._make_pairs` for `--list-format=flat` (no depth limit, no root): name, aliases -/
-def flatPairs : Coll → List CName → List Entry
-  | mk _ _ ts als cs dflt _, anc => ts.map (flatTask anc als dflt) ++ flatKids cs anc
-def flatKids : List (CName × Coll) → List CName → List Entry
+def flatPairs (rad : Bool) : Coll → List CName → List Entry
+  | mk _ _ ts als cs dflt _, anc => ts.map (flatTask rad anc als dflt) ++ flatKids rad cs anc
+def flatKids (rad : Bool) : List (CName × Coll) → List CName → List Entry
   | [], _ => []
-  | (k, c) :: r, anc => flatPairs c (anc ++ [k]) ++ flatKids r anc
+  | (k, c) :: r, anc => flatPairs rad c (anc ++ [k]) ++ flatKids rad r anc
 end
 
 /-- a nested-format line -/
@@ -229,17 +233,22 @@ inductive NLine
   | coll (anc : List CName) (name : CName)
   deriving Repr, DecidableEq
 
-def nestedTask (anc : List CName) (als : List (CName × CName)) (dflt : Option CName) (t : CName × Nat) : NLine :=
-  .task anc t.1 (dflt = some t.1) (aliasesOf als t.1)
+def nestedTask (rad : Bool) (anc : List CName) (als : List (CName × CName)) (dflt : Option CName) (t : CName × Nat) : NLine :=
+  .task (anc.map (transform rad)) (transform rad t.1) (dflt = some t.1) ((aliasesOf als t.1).map (transform rad))
 
 mutual
 /-- `Program._make_pairs` for `--list-format=nested` -/
-def nestedPairs : Coll → List CName → List NLine
-  | mk _ _ ts als cs dflt _, anc => ts.map (nestedTask anc als dflt) ++ nestedKids cs anc
-def nestedKids : List (CName × Coll) → List CName → List NLine
+def nestedPairs (rad : Bool) : Coll → List CName → List NLine
+  | mk _ _ ts als cs dflt _, anc => ts.map (nestedTask rad anc als dflt) ++ nestedKids rad cs anc
+def nestedKids (rad : Bool) : List (CName × Coll) → List CName → List NLine
   | [], _ => []
-  | (k, c) :: r, anc => NLine.coll anc k :: nestedPairs c (anc ++ [k]) ++ nestedKids r anc
+  | (k, c) :: r, anc =>
+    NLine.coll (anc.map (transform rad)) (transform rad k) :: nestedPairs rad c (anc ++ [k]) ++ nestedKids rad r anc
 end
+
+/-- `--list` / `--list --list-format=nested` of a program whose namespace is `c` -/
+def flatListing (c : Coll) : List Entry := flatPairs c.autoDash c []
+def nestedListing (c : Coll) : List NLine := nestedPairs c.autoDash c []
 
 /-- `Collection.serialized()` without the help strings -/
 inductive JNode
